@@ -8,7 +8,7 @@ TECH = "contract-based deductive verification of the real code: "
 CLAIMS = {
  "C01": ("Verus V-HEADER (entry points: header check followed by the grammar's parse; whole-stream round-trip lemma) + Verus V-SER/V-DSER (Vec<T>/Box<[T]> dispatch implementations incl. their trait-level round-trip instances for deep elements; serializers write exactly the encoding function; round-trip lemmas parse(enc(v)++rest)=v by induction over trait instances and sequence length) + Verus V-DESER/V-DERIVE (readers, cursors, generic sums, ranges, derive samples, deep-sequence loops and the zero-copy sequence reader skeleton proved against a format grammar for all payload types, offsets and lengths) + Kani round-trip lemmas per instantiation (complete for fixed-size types with a symbolic start offset, bounded for sequences)",
          "5 C01", "Verus: assumed contracts of primitive impls and unsafe helpers (checked by Kani for listed types); Kani: enumerated instantiations, sequence bounds stated per harness; the SerializeInner/WriteWithNames trait cycle is cut mechanically for Verus (WriteWithNames::write extracted as a free function), writers overriding write are Kani-only; to_ne_bytes/from_ne_bytes inverse is an axiom in Verus, checked by Kani"),
- "C02": ("Verus V-DESER eps contracts against the same grammar as full copy (agreement is by construction of the shared parse) + Kani eps round-trip lemmas on placed buffers",
+ "C02": ("Verus V-HEADER (deserialize_eps: header check, then the eps-copy contract of the type) + Verus V-DESER eps contracts against the same grammar as full copy (agreement is by construction of the shared parse) + Kani eps round-trip lemmas on placed buffers",
          "5 C02", "start offsets of Kani eps lemmas are concrete (listed per harness); all-offset padding carried by V-PAD/V-WRITE/V-DESER align contracts"),
  "C03": ("Kani lemmas on the real unsafe carvers: address, length, bounds, alignment, non-null of every borrowed part against the reference block list",
          "5 C03", "allocation-count half of the statement is not decided (no contract speaks about the allocator); element types and lengths enumerated/bounded"),
@@ -26,14 +26,14 @@ CLAIMS = {
          "5 C11", "file-backed entry points (load_full, mmap) not reachable; eps bounds-check panics whitelisted by description as the statement allows"),
  "C12": ("Kani placement lemmas: Ok iff every reference block lands on a multiple of its unit, over symbolic base residues; V-DESER SliceWithPos::align contract",
          "5 C12", "residues 0..15 (0..127 for one type in thorough); pointer-to-address relation not modelled in Verus"),
- "C13": ("Verus V-WRITE (error propagation and prefix property of write_all/align for every backend), V-SER/V-DSER (on Err the sink holds a prefix of the encoding: trait-level contract of _serialize_inner, deep-sequence loop, zero-copy sequence helper) + Kani failing-sink lemmas with symbolic failure position, partial chunk, flush failure, short/interrupted writers",
+ "C13": ("Verus V-HEADER (write_header, serialize_on_field_write, Serialize::serialize: on failure a write error and a prefix of the stream in the caller's sink) + Verus V-WRITE (error propagation and prefix property of write_all/align for every backend), V-SER/V-DSER (on Err the sink holds a prefix of the encoding: trait-level contract of _serialize_inner, deep-sequence loop, zero-copy sequence helper) + Kani failing-sink lemmas with symbolic failure position, partial chunk, flush failure, short/interrupted writers",
          "5 C13", "buffered-file and /dev/full sinks not reachable; sequence lengths bounded"),
  "C14": ("Kani fragmenting/failing reader lemmas over io::Read (symbolic chunk plan and failure position) + V-DESER reader contracts (position advances only on success)",
          "5 C14", "chunk plans of 3 symbolic entries then 1 byte per call; stream lengths bounded"),
  "C15": ("Verus V-DESER: tag i <-> variant i and InvalidTag(tag) for every foreign tag, all payload types, both modes + Kani tag tables over all 254 foreign bytes / all foreign words for derived enums",
          "5 C15", "derived enums: enumerated samples only"),
- "C16": ("Kani lemmas: byte equality (header included) of slice / SerIter / vector serializations; lying iterators over all (announced, actual) in [0,3]^2",
-         "5 C16", "item counts bounded (<=2)"),
+ "C16": ("Verus V-SER (the serializer of &[T] appends exactly the encoding of the vector of the same items, for all element types and lengths) and V-TYPEINFO (&[T] feeds the hash recipes of Vec<T>) + Kani lemmas: byte equality (header included) of slice / SerIter / vector serializations; lying iterators over all (announced, actual) in [0,3]^2",
+         "5 C16", "SerIter (RefCell + generic iterator) is outside Verus' dialect: Kani only, item counts bounded (<=2-3); the fake vector over the slice's memory is an assumed function in Verus (Kani checks the real expression)"),
  "C17": ("Kani lemmas: check_zero_copy panics before any write for a type with Copy=Zero and IS_ZERO_COPY=false (run-time layer only)",
          "5 C17", "compile-time rejection (a property of all programs) is not addressed"),
  "C18": ("Kani lemmas on the real SchemaWriter: same bytes as plain serialization, rows in pre-order, within the stream, nesting without partial overlap, leaf rows tile the stream, recorded alignments hold",
@@ -56,7 +56,7 @@ TECHNIQUE = {
  "C13": "Verus contracts on the position-tracking writer, the padding loop and every serializer under contract (error propagation, prefix-of-the-encoding on failure) + Kani failing/short writer lemma harnesses incl. the real entry points",
  "C14": "Kani lemma harnesses over fragmenting and failing io::Read / ReadNoStd sources (incl. destructor-tracking elements) + Verus reader contracts",
  "C15": "Verus contracts (tag i <-> variant i, InvalidTag(tag) otherwise; all payload types) + Kani tag-table lemma harnesses",
- "C16": "Kani lemma harnesses: byte equality of slice / iterator / vector serializations, lying iterators; Verus/Kani hash equality",
+ "C16": "Verus contract on the slice-reference serializer (encoding of &[T] = encoding of Vec<T>, unbounded) and on its hash implementations + Kani lemma harnesses: byte equality of slice / iterator / vector serializations (header included), lying iterators",
  "C17": "Kani lemma harnesses: the zero-copy run-time check panics before any write (hand-written and derived wrongly declared types); must-fail canary",
  "C18": "Kani lemma harnesses on the real SchemaWriter against plain serialization and row geometry",
  "C19": "Verus contracts on the operations of AlignedCursor (representation invariant + abstract contents/position equal to the std Cursor specification written from the statement; unbounded) + Kani per-operation lemma harnesses from an arbitrary reachable state against the real std::io::Cursor",
